@@ -8,12 +8,13 @@ CONSTANTS Fams, MaxCount, NRand, RandDepth, Thorough, BigK, HistBad, HistOk
 VARIABLES fam, done
 
 ParentSeq == SetToSeq(ParentIds)          \* families 1..Len(ParentSeq): cardinality probes of one parent
-SitesFor(kind) == IF Thorough \/ kind # "identifier" THEN SitesOf(kind)
-                  ELSE {s \in SitesOf(kind) : s[1] \in {"module", "leaf", "prefix", "import", "typedef", "bit", "case", "feature"}}
-SiteSeq == SetToSeq(UNION {{<<k, s>> : s \in SitesFor(k)} : k \in JudgedKinds})   \* families 101..: one argument kind on one statement
+SiteSeq == SetToSeq(UNION {{<<k, s>> : s \in SitesFor(k, Thorough)} : k \in JudgedKinds})   \* families 101..: one argument kind on one statement
 \* 401.. / 205: large multiplicities (cells, data-definition aggregate); 302 / 303 and 500..: histories
-AllFams == (1..Len(ParentSeq)) \cup {100 + i : i \in 1..Len(SiteSeq)} \cup {200, 201, 202, 203, 205, 300, 302, 303}
+\* 601..: odd white space, one argument kind on one statement (quick: one statement per kind)
+WsSiteSeq == SetToSeq(UNION {{<<k, s>> : s \in (IF Thorough THEN SitesFor(k, Thorough) ELSE {OneSite(k)})} : k \in JudgedKinds})
+AllFams == (1..Len(ParentSeq)) \cup {100 + i : i \in 1..Len(SiteSeq)} \cup {200, 201, 202, 203, 205, 206, 207, 208, 209, 300, 302, 303}
            \cup {400 + i : i \in 1..Len(ParentSeq)} \cup {500 + i : i \in 1..Len(SiteSeq)}
+           \cup {600 + i : i \in 1..Len(WsSiteSeq)}
 
 Probe(f, lab, tree, clean) ==
   [fam |-> f, lab |-> lab, tree |-> tree, comp |-> Companions(tree), compile |-> TRUE, clean |-> clean,
@@ -24,6 +25,13 @@ ArgProbes(f) == LET kind == SiteSeq[f - 100][1]  s == SiteSeq[f - 100][2] IN
   {LET t == ArgTree(s[1], s[2], a) IN Probe(f, <<"arg", kind, s[1], a>>, t, ArgClean(kind, s[1], a, t)) : a \in Cands(kind)}
 OrderProbes(f) == LET root == IF f = 200 THEN "module" ELSE "submodule" IN
   {Probe(f, <<"order", root, "", "">>, t, TRUE) : t \in OrderTrees(root)}
+\* 206 / 207: extension statements interleaved in section orders; 208 / 209: in revision lists
+OrderExtProbes(f) == LET root == IF f = 206 THEN "module" ELSE "submodule" IN
+  {Probe(f, <<"order", root, "ext", "">>, t, TRUE) : t \in OrderInterleaved(root, Thorough)}
+RevExtProbes(f) == LET root == IF f = 208 THEN "module" ELSE "submodule" IN
+  {Probe(f, <<"rev", root, "ext", "">>, t, TRUE) : t \in RevInterleaved(root)}
+WsProbes(f) == LET kind == WsSiteSeq[f - 600][1]  s == WsSiteSeq[f - 600][2] IN
+  {LET t == ArgTree(s[1], s[2], a) IN Probe(f, <<"arg", kind, s[1], a>>, t, FALSE) : a \in WsCands(kind)}
 RevProbes == UNION {{Probe(202, <<"rev", root, "", "">>, t, TRUE) : t \in RevTrees(root)} : root \in {"module", "submodule"}}
 KwProbes == {[fam |-> 203, lab |-> <<"kw", k, "", "">>, kwq |-> k, known |-> k \in Keywords] :
                k \in Keywords \cup {ExtKw, "foo", "yin", "p:leaf", "yin_element", "leaflist"}}
@@ -59,6 +67,9 @@ GNext == /\ ~done /\ done' = TRUE /\ UNCHANGED fam
               ELSE IF fam = 203 THEN KwProbes
               ELSE IF fam \in 401..499 THEN BigProbes(fam)
               ELSE IF fam = 205 THEN AggProbes
+              ELSE IF fam \in {206, 207} THEN OrderExtProbes(fam)
+              ELSE IF fam \in {208, 209} THEN RevExtProbes(fam)
+              ELSE IF fam >= 601 THEN WsProbes(fam)
               ELSE IF fam = 300 THEN RandBases
               ELSE IF fam = 302 THEN Hist(<<"cross", "", "">>, CrossHistories(IF Thorough THEN 1000 ELSE 80))
               ELSE IF fam = 303 THEN Hist(<<"card", "", "">>, CardHistories(IF Thorough THEN 68 ELSE 12))
